@@ -38,7 +38,8 @@ TCase ==
   /\ cs' = [id |-> E.id, prop |-> E.prop]
   /\ prevmx' = <<>>
   /\ UNCHANGED row
-  /\ viol' = viol /\ nv' = nv /\ l' = l + 1
+  /\ Step(Clause("C03", "chunked body reported finished before any body write (terminator emitted outside the body?)",
+                 E.kind = "chunked" => ~E.ready0))
 
 TWrite ==
   /\ E.ev = "w"
